@@ -187,8 +187,9 @@ class Body:
                         p = s["p"]
                         if not p["p"]:
                             d[p["l"]].append((bb, i, "assign", s["r"]))
-                        else:
+                        elif p["p"][0] != "*":
                             d[p["l"]].append((bb, i, "partial", s))
+                        # a store through a reference/pointer ((*p).f = v) does not redefine p
                     elif s["k"] == "setdiscr":
                         d[s["p"]["l"]].append((bb, i, "partial", s))
                 t = self.term(bb)
@@ -196,7 +197,7 @@ class Body:
                     p = t["dest"]
                     if not p["p"]:
                         d[p["l"]].append((bb, len(self.stmts(bb)), "call", t))
-                    else:
+                    elif p["p"][0] != "*":
                         d[p["l"]].append((bb, len(self.stmts(bb)), "partial", t))
             self._defs = d
         return self._defs.get(local, [])
